@@ -15,6 +15,7 @@ import (
 	"go.brendoncarroll.net/p2p/s/quicswarm"
 	"go.brendoncarroll.net/p2p/s/sshswarm"
 	"go.brendoncarroll.net/p2p/s/udpswarm"
+	"go.brendoncarroll.net/p2p/s/wlswarm"
 
 	"verifharness/internal/gen"
 	"verifharness/internal/sx"
@@ -58,11 +59,19 @@ func (w *secWorld) ownerOfKey(data []byte) int {
 	return -1
 }
 
-func newKeWorld(n int, allow [][]bool) *secWorld {
+func newKeWorld(n int, allow [][]bool) *secWorld { return newKeOrWlWorld(n, allow, false) }
+
+// the whitelist applied by a wlswarm wrapper around a p2pkeswarm that accepts everybody
+func newWlWorld(n int, allow [][]bool) *secWorld { return newKeOrWlWorld(n, allow, true) }
+
+func newKeOrWlWorld(n int, allow [][]bool, viaWl bool) *secWorld {
 	w := &secWorld{kind: "p2pkeswarm", allow: allow}
+	if viaWl {
+		w.kind = "wlswarm"
+	}
 	realm := memswarm.NewRealm(memswarm.WithQueueLen(64))
 	type kAddr = p2pkeswarm.Addr[memswarm.Addr]
-	sws := make([]*p2pkeswarm.Swarm[memswarm.Addr], n)
+	sws := make([]p2p.SecureSwarm[kAddr, x509.PublicKey], n)
 	ids := make([]p2p.PeerID, n)
 	for i := 0; i < n; i++ {
 		i := i
@@ -71,14 +80,19 @@ func newKeWorld(n int, allow [][]bool) *secWorld {
 		ids[i] = p2pkeswarm.DefaultFingerprinter(&pub)
 		nd := &secNode{idx: i, keyData: pub.Data}
 		w.nodes = append(w.nodes, nd)
-		sws[i] = p2pkeswarm.New[memswarm.Addr](realm.NewSwarm(), priv, p2pkeswarm.WithWhitelist[memswarm.Addr](func(a kAddr) bool {
+		af := func(a kAddr) bool {
 			for j, id := range ids {
 				if id == a.ID {
 					return allow[i][j]
 				}
 			}
 			return false
-		}))
+		}
+		if viaWl {
+			sws[i] = wlswarm.WrapSecure[kAddr, x509.PublicKey](p2pkeswarm.New[memswarm.Addr](realm.NewSwarm(), priv), af)
+		} else {
+			sws[i] = p2pkeswarm.New[memswarm.Addr](realm.NewSwarm(), priv, p2pkeswarm.WithWhitelist[memswarm.Addr](af))
+		}
 	}
 	for i, nd := range w.nodes {
 		sw := sws[i]
@@ -370,6 +384,9 @@ func c04Case(c *ctxT, r *gen.R, mk func(int, [][]bool) *secWorld, whitelisting b
 
 func runC04(c *ctxT) {
 	n := c.scale(36, 240)
+	for i := 0; i < c.scale(8, 60); i++ {
+		c04Case(c, c.rng.Fork(), newWlWorld, true)
+	}
 	for i := 0; i < n; i++ {
 		r := c.rng.Fork()
 		switch i % 3 {
